@@ -90,7 +90,11 @@ type Rule struct {
 	Name  string
 	Doc   string // what exactly it decides when it passes
 	Floor int    // minimum number of instances (hand-confirmed count, halved)
-	Run   func(c *Ctx, scope string, r *Report)
+	// ZeroOK: the expected number of matches on a correct tree is zero (the rule
+	// looks for a construct that should not exist); a positive and a negative
+	// example in /verif/controls must match on every run instead
+	ZeroOK bool
+	Run    func(c *Ctx, scope string, r *Report)
 }
 
 type RuleUse struct {
@@ -420,7 +424,7 @@ func evalProperty(c *Ctx, p *Property) *propResult {
 		sort.SliceStable(rep.obs, func(i, j int) bool { return rep.obs[i].Key < rep.obs[j].Key })
 		res.all = append(res.all, rep.obs...)
 		res.perRule = append(res.perRule, ruleStat{Rule: rule.Name, Scope: u.Scope, Instances: len(rep.obs), Floor: rule.Floor, Decides: rule.Doc, Notes: rep.notes})
-		if len(rep.obs) < rule.Floor || len(rep.obs) == 0 {
+		if (len(rep.obs) < rule.Floor || len(rep.obs) == 0) && !rule.ZeroOK {
 			res.extraViolations = append(res.extraViolations,
 				fmt.Sprintf("rule %s (scope %q) matched %d instance(s), below its floor %d: vacuous — the code the rule is anchored in changed shape; review the rule", rule.Name, u.Scope, len(rep.obs), rule.Floor))
 		}
